@@ -35,6 +35,9 @@ type opT struct {
 	Doc     docT     `json:"doc"`
 	K       int      `json:"k"`
 	Mutate  bool     `json:"mutate"`
+	CfgRef  int      `json:"cfg_ref"`  // parse/retrieve: reuse the Config OBJECT built by operation number cfg_ref-1 (0 = a fresh Config)
+	Filters2 []string `json:"filters2"` // parse/retrieve: a SECOND Config passed after the first (the library documents that only the first is used)
+	Aggs2   []string `json:"aggs2"`
 	Reenter docT     `json:"reenter"` // call: while the call runs, the function "id" calls the same parsed function on this document
 }
 
